@@ -532,7 +532,7 @@ struct Hist<'a> {
     serial_ctr: u32,
     /// the peer has written only the first part (with the descriptors) of its last frame; the rest is written when the
     /// client has polled once (inside the `recv` step) or before the peer writes anything else
-    pending_rest: Option<Vec<u8>>,
+    pending_rest: Option<(Vec<u8>, Vec<RawFd>)>,
     split_ctr: usize,
 }
 
@@ -600,8 +600,12 @@ impl<'a> Hist<'a> {
 
     /// the peer writes what it still holds back of its last frame
     fn flush_rest(&mut self) {
-        if let Some(rest) = self.pending_rest.take() {
-            peer::send_with_fds(&self.server, &rest, &[]);
+        if let Some((rest, fds)) = self.pending_rest.take() {
+            peer::send_with_fds(&self.server, &rest, &fds);
+            for n in fds {
+                let _ = nix::unistd::close(n);
+                self.baseline.remove(&n);
+            }
         }
     }
 
@@ -615,8 +619,21 @@ impl<'a> Hist<'a> {
         if self.split_ctr % 2 == 0 && frame.len() > 2 {
             // every third cut lies inside the 16-byte fixed header, the others anywhere
             let cut = if self.split_ctr % 6 == 0 { 1 + (self.split_ctr / 6) % 15.min(frame.len() - 1) } else { 1 + (self.split_ctr * 7 + frame.len() * 3) % (frame.len() - 1) };
-            peer::send_with_fds(&self.server, &frame[..cut], fds);
-            self.pending_rest = Some(frame[cut..].to_vec());
+            // the descriptors ride on the first piece - or (every fourth split) on the SECOND piece: a peer may attach them
+            // to any byte of the frame. The peer then keeps its own duplicates open until that piece is written (they are
+            // part of the audit's baseline for that time).
+            if self.split_ctr % 8 == 2 && !fds.is_empty() {
+                let held: Vec<RawFd> = fds.iter().map(|f| nix::unistd::dup(*f).unwrap()).collect();
+                for h in &held {
+                    self.baseline.insert(*h);
+                }
+                peer::send_with_fds(&self.server, &frame[..cut], &[]);
+                self.pending_rest = Some((frame[cut..].to_vec(), held));
+                self.hits.push("peer_frame_split_fds_on_second_piece".into());
+            } else {
+                peer::send_with_fds(&self.server, &frame[..cut], fds);
+                self.pending_rest = Some((frame[cut..].to_vec(), Vec::new()));
+            }
             self.hits.push(format!("peer_frame_split_{}", if cut < 16 { "in_fixed_header" } else { "later" }));
         } else {
             peer::send_with_fds(&self.server, frame, fds);
